@@ -397,7 +397,7 @@ def main(argv):
                 except Exception:  # pylint:disable=broad-except
                     pass
                 signal.signal(signal.SIGCHLD, signal.SIG_DFL)
-                send_msg(conn, {"worker": True, "pid_seq": n})
+                send_msg(conn, {"worker": True, "pid_seq": n, "pid": os.getpid()})
                 worker_loop(conn, repo, os.path.join(io_dir, f"w{os.getpid()}"))
                 os._exit(0)
             conn.close()
